@@ -82,3 +82,69 @@ def couple(src, load, bs, bl):
         G[np.ix_(lmap, lmap)] += L
         out.append(G)
     return out[0], out[1], out[2], lmap
+
+
+# ------------------------------------------------------------------ free 3-D structures (6 DOF per node)
+def skew(r):
+    return np.array([[0.0, -r[2], r[1]], [r[2], 0.0, -r[0]], [-r[1], r[0], 0.0]])
+
+
+def rigid_map(x, ref):
+    """6x6 map from rigid motion (u_ref, theta) about `ref` to the motion of a point at x (basic axes)"""
+    G = np.eye(6)
+    G[:3, 3:] = -skew(np.asarray(x, float) - np.asarray(ref, float))
+    return G
+
+
+def rot(axis, ang):
+    axis = np.asarray(axis, float) / np.linalg.norm(axis)
+    K = skew(axis)
+    return np.eye(3) + np.sin(ang) * K + (1 - np.cos(ang)) * (K @ K)
+
+
+TOPOLOGIES = {
+    # name: (number of nodes, element list (a, b))
+    "chain3": (3, [(0, 1), (1, 2)]),
+    "tri3": (3, [(0, 1), (1, 2), (0, 2)]),
+    "star4": (4, [(0, 1), (0, 2), (0, 3), (2, 3)]),
+    "ring5": (5, [(0, 1), (1, 2), (2, 3), (3, 4), (4, 0), (1, 3)]),
+}
+COORDS = [
+    np.array([[0.0, 0.0, 0.0], [1.2, 0.3, -0.4], [0.5, 1.7, 0.6], [-0.8, 0.9, 1.1], [1.5, -0.7, 0.9]]),
+    np.array([[2.0, 1.0, 0.5], [0.3, -0.2, 0.1], [1.1, 2.2, -0.7], [-0.5, 0.4, 1.6], [2.4, 0.1, -1.2]]),
+]
+
+
+def structure(topology, geom):
+    """returns xyz (n x 3), M, K (6n x 6n) in basic coordinates; free-free (6 rigid-body modes)"""
+    n, elems = TOPOLOGIES[topology]
+    xyz = COORDS[geom][:n]
+    K = np.zeros((6 * n, 6 * n))
+    M = np.zeros((6 * n, 6 * n))
+    for e, (a, b) in enumerate(elems):
+        c = 0.5 * (xyz[a] + xyz[b])
+        R = rot([1.0 + e, 2.0 - e, 0.5 * e + 0.3], 0.4 + 0.37 * e)
+        kd = np.array([2.0e5, 3.5e5, 1.5e5, 4.0e4, 2.5e4, 3.0e4]) * (1.0 + 0.3 * e)
+        T6 = np.zeros((6, 6))
+        T6[:3, :3] = R
+        T6[3:, 3:] = R
+        k6 = T6 @ np.diag(kd) @ T6.T
+        Brel = np.zeros((6, 6 * n))
+        Brel[:, 6 * a : 6 * a + 6] = -rigid_map(c, xyz[a])
+        Brel[:, 6 * b : 6 * b + 6] = rigid_map(c, xyz[b])
+        K += Brel.T @ k6 @ Brel
+    for i in range(n):
+        m = 2.0 + 1.3 * i
+        R = rot([0.3 + i, 1.0, 2.0 - 0.4 * i], 0.5 + 0.2 * i)
+        Icg = R @ np.diag([0.20 + 0.05 * i, 0.35, 0.15 + 0.1 * i]) @ R.T
+        off = np.array([0.05 * (i + 1), -0.03 * i, 0.04 * (i % 2)])
+        T = rigid_map(xyz[i] + off, xyz[i])
+        Mi = T.T @ np.block([[m * np.eye(3), np.zeros((3, 3))], [np.zeros((3, 3)), Icg]]) @ T
+        M[6 * i : 6 * i + 6, 6 * i : 6 * i + 6] = Mi
+    K = (K + K.T) / 2
+    M = (M + M.T) / 2
+    return xyz, M, K
+
+
+def rigid_modes(xyz, ref):
+    return np.vstack([rigid_map(x, ref) for x in xyz])
